@@ -11,6 +11,7 @@ mod val;
 mod zoo_gen;
 mod mutate;
 mod schemagen;
+mod schemaread;
 
 use std::collections::BTreeMap;
 use std::io::Write;
@@ -74,6 +75,12 @@ fn main() {
                 let ty = (e.ty_sx)();
                 let name = e.name.clone();
                 d.add(&format!("@{}", name), |_| ty);
+            }
+            // platform facts the schemas record (probed, inputs to the model)
+            writeln!(out, "(cfg vec-layout {})", savefile::calculate_vec_memory_layout::<u8>() as u8).unwrap();
+            {
+                let sb = schema_bytes::<String>(0, 2);
+                writeln!(out, "(cfg string-layout {})", sb[2]).unwrap();
             }
             for l in d.lines {
                 writeln!(out, "{}", l).unwrap();
@@ -396,6 +403,42 @@ fn main() {
                                     }
                                 }
                             }
+                        }
+                    }
+                }
+            }
+            for (k, v) in stats {
+                writeln!(out, "#stat {} {}", k, v).unwrap();
+            }
+        }
+        // S-schema: get_schema::<T>(v) as format-2 bytes vs the model's schemaOf; faithfulness (C12):
+        // an independent schema-driven reader parses the bytes really written for the type
+        "schemaof" => {
+            let mut stats: BTreeMap<String, u64> = BTreeMap::new();
+            for e in selected(&reg, &a) {
+                for &v in &e.versions {
+                    let sb = (e.schema_bytes)(v, 2);
+                    writeln!(out, "(schema @{} {})\t(ok {})", e.name, v, hex(&sb)).unwrap();
+                    // the model's verdict on faithfulness; the implementation side claims it for every type
+                    writeln!(out, "(faithful @{} {})\t(ok true)", e.name, v).unwrap();
+                    let (schema, _) = schemagen::de_schema(&sb, 2).expect("zoo schema");
+                    let mut r = Rng::new(name_seed(a.seed, &e.name, 5000 + v as u64));
+                    for i in 0..a.cases {
+                        let (_wire, _canon, res) = (e.gen_enc)(&mut r, if i % 3 == 0 { 2 } else { a.size }, v);
+                        let Ok(bytes) = res else { continue };
+                        let got = schemaread::generic_read(&schema, &bytes);
+                        // the model's generic reader on the same schema and bytes
+                        writeln!(out, "(parse {} {})\t{}", hex(&sb), hex(&bytes), got).unwrap();
+                        *stats.entry(format!("parse-{}", got.split(|c| c == ' ' || c == ')').next().unwrap_or(""))).or_default() += 1;
+                        if v == e.current() && !(got.starts_with("(ok ") && got.ends_with(" 0)")) {
+                            writeln!(out, "!C12 schema-does-not-describe-bytes type={} ver={} bytes={} reader={}", e.name, v, hex(&bytes), got).unwrap();
+                        }
+                    }
+                    if sb.windows(1).len() > 0 {
+                        // recursion markers in schemas of the (non-recursive) zoo types
+                        let dbg = format!("{:?}", schema);
+                        if dbg.contains("Recursion(") {
+                            writeln!(out, "!C12 recursion-marker-in-nonrecursive-type type={} ver={}", e.name, v).unwrap();
                         }
                     }
                 }
